@@ -24,8 +24,10 @@ META = {
             '95th percentile is <= d_max, the median is unchanged when it already satisfies the cap and is never increased; a phase '
             'with zero flow gives median 0 / no d_max in sintef, li_etal, wang_etal and the empty distribution in ModelBase for every '
             'model/pdf choice; sintef evaluates no zero denominator with one phase absent; the legacy truncation conserves the '
-            'total mass flux. Negations proved by witness where the code falsifies the property (li_etal 0/0 for an absent phase; '
-            'li_etal never applies the d95 rule; ModelBase wang_etal + rosin-rammler yields no distribution). The model is compared '
+            'total mass flux; li_etal evaluates no zero denominator for zero flow of either or both phases and ModelBase '
+            'wang_etal + rosin-rammler yields the converted Rosin-Rammler distribution (both found defective by this check and repaired '
+            'in /repo: 9f1b754, 99832ec). Negation proved by witness where the code still falsifies the property: li_etal never applies '
+            'the d95 rule (known finding). The model is compared '
             'with the real psf / particle_size_models / sintef functions through a driver on every generated case and every clause '
             'is evaluated on the real outputs, the drivers under np.errstate(raise).',
     'note': 'Trusted: Lean kernel + 3 standard axioms; the hand transcription Model/Psf.lean (tied by correspondence only, no '
@@ -450,7 +452,7 @@ def run(ctx, lean_ok):
                 elif not d50 * (math.log(0.05) / k) ** (1. / al) <= dm * (1 + 1e-9):
                     ctx.violation('d95-exceeds-dmax:li_etal', 'li_etal: 95th percentile of the fitted distribution exceeds the maximum stable size (the d95 rule is never applied)',
                                   dict(case, got=[d50, dm, k, al], d95=d50 * (math.log(0.05) / k) ** (1. / al)))
-            if flows != 'none':
+            if True:        # since fix 9f1b754 li_etal is defined (empty parameters) with neither phase flowing, too
                 ask(req('Psf.li_etal', rec.get('grace', 0.0), d0, mgv, p['rho_gas'], mov, p['rho_oil'], mu_p, sg, p['rho'], p['mu'], fp),
                     lambda o, d50=d50, dm=dm, k=k, al=al, case=case: corr('Model.Psf.liEtal vs psf.li_etal', [o[0], o[2] if o[1] == 1 else -1.0, o[3], o[4]],
                                                                             [d50, dm if dm is not None else -1.0, k, al], case))
